@@ -303,7 +303,7 @@ def gen_nearmiss(rng):
   """-> (source, description).  half of them are exactly well-typed, the others off by one somewhere"""
   w = rng.choice([1, 2, 3, 4, 7, 8, 9, 16, 31, 32, 33, 48, 49, 50, 63, 64, 65, 100])
   d = rng.choice([0, 0, 1, -1]) if w > 1 else rng.choice([0, 1])
-  shape = rng.randrange(30)
+  shape = rng.randrange(32)
   itbl = [1, 1, 0, 1]
   wa, wb, wo = w, w + d, w
   lit_k = rng.choice([w - 1, w, w + 1, w, w])
@@ -432,6 +432,20 @@ def gen_nearmiss(rng):
     kc, kw = rng.choice([("s.K1", 1), ("s.K1", 1), ("s.tbl1[0]", 1), ("s.tbl1[1]", 1), ("s.KQ.lo", 4), ("s.KQ.hi", 4)])
     stmt = rng.choice([f"s.o @= s.a {op} {kc}", f"s.o1 @= s.a {cmp_} {kc}", f"s.o @= {kc}", f"s.o @= {kc} {op} s.a", f"s.o @= s.a if s.c else {kc}"])
     lit = "sized-attribute-constant"; d = 0 if w == kw else 1
+  elif shape == 30:
+    # a slice of a TEMPORARY (or of an expression held in one) whose upper bound lies beyond the value's width but inside the next
+    # power of two: there are no such bits - the block is refused, or at least never accepted to fail with an out-of-range access
+    w = wa = wb = rng.choice([3, 5, 6, 7, 12, 13, 33]); top_ = 1 << (w - 1).bit_length()
+    hi = rng.choice([w, w + 1, top_]) if top_ > w else w
+    lo = rng.randrange(0, w - 1)
+    wo = hi - lo
+    stmt = f"t = s.a {rng.choice(['+', '^', '|'])} 1\n      s.o @= t[{lo}:{hi}]"
+    lit = "tmp-slice:" + ("inside" if hi <= w else "beyond"); d = 0 if hi <= w else 1
+  elif shape == 31:
+    # a Bits target (whole, a slice) assigned from a STRUCT-typed signal of 8 bits: the total widths have to agree
+    w = wa = wb = wo = rng.choice([8, 8, 7, 9, 4, 16, 12])
+    stmt = rng.choice(["s.o @= s.ps", "s.o @= s.ps", f"s.o[0:{min(w, 8)}] @= s.ps" if w != 8 else "s.o @= s.ps"])
+    lit = "vector-from-struct"; d = 0 if (w == 8 or "[0:8]" in stmt) else 1
   elif shape == 24:
     # an element of a table of SIZED constants picked by a constant expression ( s.tbl[s.N - 1] ): it is wb bits wide, full stop
     ix = rng.choice(["s.N - 1", "s.N", "0 + 1", "1"])
@@ -488,11 +502,15 @@ def run_nearmiss(sh, case):
     sh.count("nearmiss_cases"); sh.count("evaluations")
     sh.count("nearmiss_accepted" if accepted else "nearmiss_rejected")
     if desc["shape"] == 25: sh.count("int_table_signal_index:" + str(desc["literal"]) + (":accepted" if accepted else ":rejected"))
-    if desc["shape"] in (27, 28, 29): sh.count(str(desc["literal"]) + (":accepted" if accepted else ":rejected") + (":raises" if err is not None and is_width_error(err) else ""))
+    if desc["shape"] in (27, 28, 29, 31): sh.count(str(desc["literal"]) + (":accepted" if accepted else ":rejected") + (":raises" if err is not None and is_width_error(err) else ""))
     if desc["shape"] == 26:
       sh.count("part_select:" + str(desc["literal"]) + (":accepted" if accepted else ":rejected"))
       if accepted and err is not None and not is_width_error(err): sh.count("part_select_other_error:" + type(err).__name__)
     sh.fp("nm", desc["shape"], desc["delta"], accepted, err is not None and is_width_error(err))
+    if desc["shape"] == 30:
+      sh.count(str(desc["literal"]) + (":accepted" if accepted else ":rejected"))
+      if accepted and isinstance(err, IndexError):
+        sh.violation("checker-accepted-a-slice-beyond-the-width-of-the-value", dict(desc, error=str(err)[:160], source=src), case=case)
     if accepted and err is not None and is_width_error(err):
       lit = desc["literal"]
       mech = "literal-width-float-log2-wrong-from-2^49" if desc["shape"] in (4, 5, 6) and lit >= (1 << 49) else None
